@@ -32,12 +32,12 @@ class C03(T.SeqCases, S.SchedCheck):
                    "IEEE-754 doubles satisfy LawfulTyme (a+0=a, <= reflexive/transitive/total, 0<=t -> a<=a+t, a<=b -> a+t<=b+t) on the finite non-NaN values used; no Lean instance is declared",
                    "DoDoers with tock > 0 and their members are outside the quantifier of C03: only order/once-per-cycle/tyme clauses are checked for them"]
     rule = ("op-free fault-free programs: own profiles flat/nested/hetero/f46/g04 (scripts positive* asap*, asap-then-positive, mixed; None and 0.0; tocks incl. 0.1 0.3 1/3 0.7; "
-            "starts incl. 0.3 100.1 7/3; limits incl. non-multiples and negative; random regroupings under tock-0 DoDoers incl. empty and nested) + profiles time/plain of the family; 7% small worlds of own doers whose FIRST doer re-sets the scheduler's tock / fast-forwards its tyme in mid cycle, judged against a simulation of the cycle model that reads tyme and tock when used (oracle only); 18% op-carrying programs of the family (profiles ops/mixed: extend/remove by running doers) judged on the once-per-cycle and enter-order clauses; waiter doers (read a sibling's .done) in 40% of the flat/nested/g04 programs; 6% degenerate programs (no doers, all done at enter, DoDoers without kids: the deque is empty when the first cycle runs); ~40% of the cases reach the same program through a history or another entry point (schedt.run_var: seq, same Doist twice, faulted first run, pre-wound, ints, iterator, doers at init, __call__, hand-driven enter/recur/exit, DoDoer opts); formerly: 30% of the cases are SECOND runs: the same doer objects were first run under another Doist (other start tyme, cut by a limit) and are then run under a fresh one. "
+            "starts incl. 0.3 100.1 7/3; limits incl. non-multiples and negative; random regroupings under tock-0 DoDoers incl. empty and nested) + profiles time/plain of the family; 7% small worlds of own doers whose FIRST doer re-sets the scheduler's tock / fast-forwards its tyme in mid cycle, judged against a simulation of the cycle model that reads tyme and tock when used (oracle only); 8% programs in which a top-level doer extends the Doist in mid cycle with doers yielding positive tocks larger than the scheduler tock (due-tyme clauses also apply to doers entered by extend: first due = enter tyme, not run in the entering cycle; programs with removes or faults excluded); 18% op-carrying programs of the family (profiles ops/mixed: extend/remove by running doers) judged on the once-per-cycle and enter-order clauses; waiter doers (read a sibling's .done) in 40% of the flat/nested/g04 programs; 6% degenerate programs (no doers, all done at enter, DoDoers without kids: the deque is empty when the first cycle runs); ~40% of the cases reach the same program through a history or another entry point (schedt.run_var: seq, same Doist twice, faulted first run, pre-wound, ints, iterator, doers at init, __call__, hand-driven enter/recur/exit, DoDoer opts); formerly: 30% of the cases are SECOND runs: the same doer objects were first run under another Doist (other start tyme, cut by a limit) and are then run under a fresh one. "
             "non-trivial = >= 10 recur events and some doer yields a positive tock; distinct by request line")
 
     def corpus(self):
         # S.CORPUS[3] = pre-finding F03 (extend in mid cycle): exhibits known finding C03-K2 on every run
-        return [("dyn", tuple(sorted(g.items()))) for g in self.DYN_CORPUS] \
+        return [("dyn", tuple(sorted(g.items()))) for g in self.DYN_CORPUS] + list(T.EXTEND_POS_CORPUS) \
             + list(T.DEGENERATE_CORPUS) + list(T.TIMING_CORPUS) + list(T.WAITER_CORPUS) + [S.CORPUS[3], S.CORPUS[1], S.CORPUS[9]] \
             + self.seq_corpus(T.TIMING_CORPUS + T.DEGENERATE_CORPUS[:3] + T.WAITER_CORPUS)
 
@@ -77,6 +77,9 @@ class C03(T.SeqCases, S.SchedCheck):
                 k = rng.random()
                 if rng.random() < 0.07:
                     yield ("dyn", T.gen_world(rng, "dyn"))
+                    continue
+                if rng.random() < 0.08:
+                    yield T.gen_extend_pos(rng)
                     continue
                 if k < 0.06:
                     yield T.gen_degenerate(rng)
@@ -134,33 +137,36 @@ class C03(T.SeqCases, S.SchedCheck):
         if case[0] == "dyn":
             return None
         case = self.base(case)
-        # C03-K2 (pre-finding F03, = C02-K1 seen from C03): a doer extended in mid cycle is queued BEFORE its extender, so later cycles
-        # run it ahead of doers that were entered earlier.  Only the order clause, and in every inverted pair the doer that runs too
-        # early is a pool doer (entered by extend()) or lives inside one.
-        if clauses == ["cycle-order-differs-from-enter-order"]:
-            cl, why = T.c03_analyse(case, obs.d)
+        # Both open findings can show in one run (a group member yields positive after asap AND extends): every violated clause must be
+        # explained by its own trigger; the case is then booked under K1 when the due clause is among them, else under K2.
+        ORDER, DUE = "cycle-order-differs-from-enter-order", "resume-not-in-first-cycle-at-or-after-due"
+        if not clauses or not set(clauses) <= {ORDER, DUE}:
+            return None
+        cl, why = T.c03_analyse(case, obs.d)
+        if ORDER in clauses:
+            # C03-K2 (pre-finding F03, = C02-K1 seen from C03): a doer extended in mid cycle is queued BEFORE its extender, so later
+            # cycles run it ahead of doers that were entered earlier: in every inverted pair the doer that runs too early is a pool doer
+            # (entered by extend()) or lives inside one.
             spec, par, pools, kids = S.spec_index(case)
             desc = S.descendants(case)
             early = {i for l in pools.values() for i in l}
             for g in list(early):
                 early |= desc.get(g, set())
             inv = why.get("inversions", [])
-            if inv and all(a in early for a, b in inv):
-                return "C03-K2"
-            return None
-        # C03-K1 (pre-finding F46): inside a tock-0 DoDoer the due tyme after an asap yield is the CURRENT tyme, so a positive tock that
-        # follows is counted from one scheduler tock too early.  Only the cumulative-due clause may be violated, every doer it names must
-        # satisfy the trigger, and the whole run must be exactly what that rule predicts.
-        if clauses != ["resume-not-in-first-cycle-at-or-after-due"]:
-            return None
-        cl, why = T.c03_analyse(case, obs.d)
-        hit = set(T.g04_break_reached(case, obs.d, None, any_tock0_parent=True))
-        named = {k for k in why if k != "inversions"}
-        if not named or not named <= hit:
-            return None
-        if T.c03_analyse(case, obs.d, nested_asap_rule="now")[0]:
-            return None
-        return "C03-K1"
+            if not inv or not all(a in early for a, b in inv):
+                return None
+        if DUE in clauses:
+            # C03-K1 (pre-finding F46): inside a tock-0 DoDoer the due tyme after an asap yield is the CURRENT tyme, so a positive tock
+            # that follows is counted from one scheduler tock too early: every doer the clause names satisfies the trigger and the whole
+            # run is exactly what that rule predicts.
+            hit = set(T.g04_break_reached(case, obs.d, None, any_tock0_parent=True))
+            named = {k for k in why if k != "inversions"}
+            if not named or not named <= hit:
+                return None
+            if DUE in T.c03_analyse(case, obs.d, nested_asap_rule="now")[0]:
+                return None
+            return "C03-K1"
+        return "C03-K2"
 
 
 CHECK = C03()
